@@ -209,6 +209,11 @@ pub enum BitAct {
 pub struct FrameSys {
     alphabet: Vec<BitAct>,
 }
+impl FrameSys {
+    pub fn new() -> Self {
+        FrameSys { alphabet: vec![BitAct::Bit(false), BitAct::Bit(true), BitAct::Clear] }
+    }
+}
 
 impl Sys for FrameSys {
     /// (real decoder, shadow bits, shadow count)
@@ -283,7 +288,7 @@ pub fn c06(ctx: &mut Ctx) -> (u64, String) {
     ctx.trust("R-FRAME (see C05) as second opinion on the 11th-bit result; the primary oracle is the real add_word on the assembled word");
     ctx.assume("state identity of Ps2Decoder = derived PartialEq over all fields (hook H3); the two-/three-frame stream trees and the clear sweep need no hook");
     // (A) closed BFS of real decoder x shadow frame
-    let sys = Arc::new(FrameSys { alphabet: vec![BitAct::Bit(false), BitAct::Bit(true), BitAct::Clear] });
+    let sys = Arc::new(FrameSys::new());
     let (g, sr, errs) = explore_both(sys.clone(), true);
     for e in errs {
         ctx.machinery(&format!("frame bfs: {}", e));
